@@ -580,8 +580,11 @@ func callSSA(i *interpreter, caller *frame, callpos token.Pos, fn *ssa.Function,
 		}
 		return ext(fr, args)
 	}
+	// the package of fn may be under construction by another worker right now: its
+	// functions then have partially built bodies (Blocks is set before the body is
+	// finished), so wait for the package build before looking at the body
+	i.P.ensureBuilt(fn)
 	if fn.Blocks == nil {
-		i.P.ensureBuilt(fn)
 		if fn.Blocks == nil {
 			if i.st.inDepInit > 0 {
 				i.st.noteStub("skipped in dependency init: " + i.P.name(fn))
